@@ -62,6 +62,17 @@ def execute(steps, T, CAP, timeout_s, U, threaded=False):
             sim.tick(3)
             while u.read():
                 pass
+        elif act == 'CTouch':
+            # part of a TLS record arrives: the socket is readable, the read answers "want read", nothing is delivered
+            import ssl
+            ps = c.proxy_side
+            if ps is not None and not ps.closed:
+                ps.arm('recv', ssl.SSLWantReadError())
+                c.write(b'\x17')
+                sim.tick(1)
+                ps.rx.clear()            # the TLS layer has swallowed the bytes
+                ps.armed.get('recv', []).clear()
+            sim.tick(1)
         elif act == 'USend':
             u.write(b'u' * U)
             sim.tick(3)
